@@ -196,6 +196,11 @@ def _dc_module(case):
         pos.append("99")
     kws = [f"{f}={ARGS[f]}" for f in case["kw"]]
     if case["bad"] == "unknown":
+        # the unknown keyword takes the place of one field, so that the argument count alone does not give it away
+        if kws:
+            kws.pop()
+        elif pos:
+            pos.pop()
         kws.insert(0 if len(fields) % 2 == 0 else len(kws), "zz=1")  # unknown keyword first or last
     args = pos + kws
     return cls + f"def build(ds):\n    return ds.Select(lambda e: C({', '.join(args)}))\n", f"C({', '.join(args)})"
